@@ -120,10 +120,21 @@ func parallelLines(path string, workers int, fn func(line []byte)) error {
 
 // sink collects mismatches / trace records as NDJSON, concurrency safe.
 type sink struct {
-	mu sync.Mutex
-	w  *bufio.Writer
-	f  *os.File
-	n  int
+	mu  sync.Mutex
+	w   *bufio.Writer
+	f   *os.File
+	n   int
+	max int // 0 = unlimited; otherwise records beyond max are counted but not written
+}
+
+// newMismatchSink is a sink that keeps only the first records: a broken tree can
+// produce millions of mismatches.
+func newMismatchSink(path string) (*sink, error) {
+	s, err := newSink(path)
+	if s != nil {
+		s.max = 2000
+	}
+	return s, err
 }
 
 func newSink(path string) (*sink, error) {
@@ -140,8 +151,10 @@ func (s *sink) put(v any) {
 		panic(err)
 	}
 	s.mu.Lock()
-	s.w.Write(b)
-	s.w.WriteByte('\n')
+	if s.max == 0 || s.n < s.max {
+		s.w.Write(b)
+		s.w.WriteByte('\n')
+	}
 	s.n++
 	s.mu.Unlock()
 }
